@@ -10,7 +10,7 @@ import (
 
 func init() {
 	Register(&Scenario{Prop: "C19", Name: "progress-monotone", Run: scenC19, SoftParks: true, Weight: 1,
-		Rule: "1-3 writer replicas, one database per instance (type drawn per run); 3-14 (thorough 3-40) writes (single, or 1-3 concurrent local writers stopped at the write-path points while replication goes on) with replication under faults, local writes whose cache write fails with a disk error (the entry is in the log, the call reports the error), far-ahead heads (one writer runs ahead while links are cut), clean restart + Load(-1) or (1 in 3) SaveSnapshot + clean restart + LoadFromSnapshot, the heads write at the end of a merge failing with a disk error, progress events held back behind the end of their replication (1 run in 3); GetProgress/GetMax sampled on every open store after every kernel step must never decrease; whenever the world is at rest and a replica's log is complete: progress == max and maxLamport <= progress <= Len; non-trivial = >=3 writes, >=1 at-rest check on a replica that replicated >=1 entry (or single replica), >=20 samples"})
+		Rule: "1-3 writer replicas, one database per instance (type drawn per run); 3-14 (thorough 3-40) writes (single, or 1-3 concurrent local writers stopped at the write-path points while replication goes on) with replication under faults (including block fetches that end with an error), local writes whose cache write fails with a disk error (the entry is in the log, the call reports the error), far-ahead heads (one writer runs ahead while links are cut), clean restart + Load(-1) or (1 in 3) SaveSnapshot + clean restart + LoadFromSnapshot, the heads write at the end of a merge failing with a disk error, progress events held back behind the end of their replication (1 run in 3); GetProgress/GetMax sampled on every open store after every kernel step must never decrease; whenever the world is at rest and a replica's log is complete: progress == max and maxLamport <= progress <= Len; non-trivial = >=3 writes, >=1 at-rest check on a replica that replicated >=1 entry (or single replica), >=20 samples"})
 }
 
 func scenC19(k *K) {
@@ -19,6 +19,10 @@ func scenC19(k *K) {
 	n := k.C.Range(1, 3)
 	c := k.NewCluster(ClusterCfg{N: n, Type: typ})
 	k.F = swarmFaults(k, true)
+	// block fetches that end with an error (a third of the runs each: pending fetches failed by
+	// the kernel; the first fetches of about half the entries): a replication round may end
+	// with less than was announced
+	c.FetchFailures()
 	nops := k.C.Range(3, 14)
 	if Tier == "thorough" {
 		nops = k.C.Range(3, 40)
